@@ -316,22 +316,25 @@ func fileCloseAux(L *LState, file *lFile) int {
 		L.Push(LString("cannot close standard file"))
 		return 2
 	}
+	errorIfFileIsClosed(L, file)
 	file.closed = true
 	forgetOpenFile(L, file)
 	var err error
-	if file.writer != nil {
-		if bwriter, ok := file.writer.(*bufio.Writer); ok {
-			if err = bwriter.Flush(); err != nil {
-				goto errreturn
-			}
-		}
+	if bwriter, ok := file.writer.(*bufio.Writer); ok {
+		err = bwriter.Flush() // on failure the descriptor is still given back below
 	}
 	file.AbandonReadBuffer()
 
 	switch file.Type() {
 	case lFileFile:
-		if err = file.fp.Close(); err != nil {
-			goto errreturn
+		if cerr := file.fp.Close(); err == nil {
+			err = cerr
+		}
+		if err != nil { // as io_fclose: the stream is gone, the outcome is reported
+			L.Push(LNil)
+			L.Push(LString(err.Error()))
+			L.Push(LNumber(1)) // C-Lua compatibility: Original Lua pushes errno to the stack
+			return 3
 		}
 		L.Push(LTrue)
 		return 1
@@ -355,9 +358,6 @@ func fileCloseAux(L *LState, file *lFile) int {
 		L.Push(LNumber(exitStatus))
 		return 1
 	}
-
-errreturn:
-	L.RaiseError(err.Error())
 	return 0
 }
 
